@@ -135,7 +135,7 @@ def ev(node, env):
             rcls = env['__mod__'].resolve_name(node.func.id)
         except Exception:
             rcls = None
-        if rcls is not None and hasattr(rcls, 'find_method') and hasattr(rcls, 'mro') and not any(b_ for b_ in getattr(rcls, 'external_bases', []) or []):
+        if rcls is not None and hasattr(rcls, 'find_method') and hasattr(rcls, 'mro') and not any(k_.name.endswith(('Error', 'Exception')) for k_ in rcls.mro()):      # exception objects are records (below)
             return _instantiate(rcls, [ev(a, env) for a in node.args], {k.arg: ev(k.value, env) for k in node.keywords if k.arg}, env)
     if isinstance(node, (ast.Subscript, ast.Call)):
         # bindings may be given by source text:  'data[1]', 'len(self.additions)'
